@@ -326,8 +326,9 @@ fn cls(e: &anyhow::Error) -> String {
         ("data length out ouf bounds", "length"),
         ("unsupported layer mode", "layer-mode"),
         ("error while parsing font slot", "font-slot"),
+        ("invalid character code", "invalid-char"),
         ("error while encoding ztext chunk", "ztxt"),
-                ("png", "png"),
+        ("png", "png"),
     ];
     for (k, c) in known {
         if s.contains(k) {
